@@ -1,7 +1,75 @@
 import SshAudit.Driver.WireOps
+import SshAudit.Model.Report
+import SshAudit.Gen.KexDB
+import SshAudit.Gen.Tables
 namespace SshAudit.Driver
+open SshAudit SshAudit.Report
 
-/-- line-protocol operations of the Report model (stub; filled in when the model lands) -/
-def reportOp (_op : String) (_args : List String) : Option J := none
+def decHK (tok : String) : Option (List (Str × HostKeyInfo)) :=
+  if tok = "_" then some [] else
+  (tok.splitOn ";").mapM fun (e : String) =>
+    match e.splitOn ":" with
+    | [n, sz, ct, cs] => do
+      let n ← decStr n; let sz ← decNat sz; let ct ← decStr ct; let cs ← decNat cs
+      pure (n, ({ size := sz, caType := ct, caSize := cs } : HostKeyInfo))
+    | _ => none
+
+def decSizes (tok : String) : Option (List (Str × Nat)) :=
+  if tok = "_" then some [] else
+  (tok.splitOn ";").mapM fun (e : String) =>
+    match e.splitOn ":" with
+    | [n, sz] => do let n ← decStr n; let sz ← decNat sz; pure (n, sz)
+    | _ => none
+
+def levelName : Level → String | .fail => "fail" | .warn => "warn" | .info => "info"
+def jnote (n : Note) : J := .arr [.str (levelName n.level).toList, .str n.text]
+def jline (l : AlgLine) : J := .obj [("name", .str l.name), ("shown", .str l.shown), ("notes", .arr (l.notes.map jnote)), ("unknown", .bool l.unknown)]
+def actionName : Action → String | .del => "del" | .add => "add" | .chg => "chg"
+def recLevelName (r : Rec) : String := if recLevel r = 2 then "critical" else if recLevel r = 1 then "warning" else "informational"
+def jrec (r : Rec) : J := .arr [.str (recLevelName r).toList, .str (actionName r.action).toList, .str r.cat, .str r.name]
+def jopts (o : Option (List (Option Str))) : J := J.ofOpt (fun l => .arr (l.map (J.ofOpt .str))) o
+def jjn (n : JNotes) : J := .obj [("fail", jopts n.fail), ("warn", jopts n.warn), ("info", jopts n.info)]
+
+def decPeerR : List String → Option Peer
+  | [k, key, ec, es, mc, ms, c, hk, dh] => do
+    let kex ← decStrs k; let key ← decStrs key; let encC ← decStrs ec; let encS ← decStrs es
+    let macC ← decStrs mc; let macS ← decStrs ms; let compS ← decStrs c; let hostKeys ← decHK hk; let dhSizes ← decSizes dh
+    pure { kex, key, encC, encS, macC, macS, compS, hostKeys, dhSizes }
+  | _ => none
+
+def reportOp (op : String) (args : List String) : Option J :=
+  match op with
+  | "report" =>
+    match args with
+    | role :: sw :: cm :: rn :: rest => do
+      let client ← decBool role
+      let bsw ← decOptStr sw; let bcm ← decOptStr cm; let rate ← decStr rn
+      let peer ← decPeerR rest
+      let software := Version.parse bsw bcm
+      let pp := postProcess Gen.ssh2db peer client bsw rate
+      let r := report Gen.rsaFamily Gen.ssh2db peer client bsw software rate
+      let jn (cat : Str) (names : List Str) : J := .arr (names.map fun n => .arr [.str n, jjn (jsonNotes pp.db Gen.failUnknown cat n)])
+      pure (jok (.obj [
+        ("kex", .arr (r.kex.map jline)), ("key", .arr (r.key.map jline)), ("enc", .arr (r.enc.map jline)), ("mac", .arr (r.mac.map jline)),
+        ("status", .nat r.status), ("compression", J.ofStrs r.compression), ("recs", .arr (r.recs.map jrec)), ("notes", J.ofStrs r.notes),
+        ("unknown", J.ofStrs r.unknown), ("suppress", J.ofStrs pp.suppress), ("marker", .bool pp.marker),
+        ("vulnerable", .arr (pp.vulnerable.map fun (c, n) => .arr [.str c, .str n])),
+        ("json", .obj [("kex", jn kexC peer.kex), ("key", jn keyC peer.key), ("enc", jn encC peer.encS), ("mac", jn macC peer.macS)])]))
+    | _ => none
+  | "ssh1.masks" =>
+    match args with
+    | [c, a] => do
+      let c ← decNat c; let a ← decNat a
+      pure (jok (.arr [J.ofStrs (maskNames Gen.ssh1Ciphers 0 c), J.ofStrs (maskNames Gen.ssh1Auths 1 a)]))
+    | _ => none
+  | "lookup.notes" =>
+    match args with
+    | [cat, n] => do
+      let cat ← decStr cat; let n ← decStr n
+      pure (jok (match algTexts Gen.ssh2db cat n with
+        | some (ts, unk) => .obj [("notes", .arr (ts.map jnote)), ("unknown", .bool unk)]
+        | none => .null))
+    | _ => none
+  | _ => none
 
 end SshAudit.Driver
